@@ -456,6 +456,12 @@ class NetWorld(World):
                     # search bounded by the known distance of the target, or by a little more
                     "bound": r.choice([None, None, None, 0, 0, 0.25, 2.0])}
         # C10: needs abs_curv on every edge, an index and prepared distances
+        if (m["index"] is None or m["prepared"] is None) and m["edges"] and r.random() < 0.15:
+            # ... which the user sometimes forgets: the matching is requested on a network that is not ready
+            ob = self._gen_track(r, m)
+            ob = (ob + ob + ob)[: 3 * max(1, len(ob) // 3)] if len(ob) % 3 else ob
+            return {"op": "map", "s": s, "slot": r.randrange(2), "obs": ob, "noise": r.choice([1, 10, 50]),
+                    "z": 0.0, "tmode": "inc", "radius": self._gen_radius(r), "tcost": r.choice([1, 10]), "coll": False}
         if m["index"] is None or (r.random() < 0.05):
             return {"op": "index", "s": s, "frac": None if r.random() < 0.3 else
                     [round(r.uniform(0.05, 0.9), 3), round(r.uniform(0.05, 0.9), 3)],
